@@ -10,12 +10,15 @@ crate=$(echo $demo | cut -d/ -f1); tname=$(basename $demo .rs)
 touched=$(grep '^+++ b/' $OUT/patch.diff | sed 's#+++ b/##' | cut -d/ -f1 | sort -u | tr '\n' ' ')
 echo "demo=$demo crate=$crate test=$tname touched=$touched"
 git apply -R --check $OUT/patch.diff 2>/dev/null || { echo "patch not applied in worktree; applying"; git apply $OUT/patch.diff || exit 2; }
+# a target dir shared between worktrees (VERIFY_TARGET_DIR) keys its fingerprints on mtimes: make every state change visible
+touchp() { grep '^+++ b/' $OUT/patch.diff | sed 's#+++ b/##' | xargs -r touch; }
+touchp
 echo "--- with patch: demo (expect FAIL)"
 cargo test -q -p $crate --offline -j 8 --test $tname 2>&1 | grep -E "^test result|^test .* (FAILED|ok)$" | head -8
 echo "--- with patch: existing tests of touched crates (expect ok)"
 for c in $touched; do cargo test -q -p $c --offline -j 8 --lib 2>&1 | grep -E "^test result" | head -2; done
 cargo test -q -p dquic --offline -j 8 --test echo 2>&1 | grep -E "^test result" | head -2
-git apply -R $OUT/patch.diff
+git apply -R $OUT/patch.diff; touchp
 echo "--- without patch: demo (expect ok)"
 cargo test -q -p $crate --offline -j 8 --test $tname 2>&1 | grep -E "^test result|^test .* (FAILED|ok)$" | head -8
-git apply $OUT/patch.diff
+git apply $OUT/patch.diff; touchp
